@@ -435,6 +435,21 @@ def numeric_counterexample(formulas, concl, model, tries=1200, seed=0):
 LAST_DIFF = [0.0]
 
 
+def check_point(formulas, concl, env):
+    """True when every formula holds and concl fails at the concrete point env {name: rational string} (true exp/log/sqrt)"""
+    from . import fields
+
+    C = alg.ctx()
+    F = fields.MpField({}, 30)
+    try:
+        symenv = {C.byname[k]: F.num(Fraction(v)) for k, v in env.items() if k in C.byname}
+        if "pi" in C.byname:
+            symenv[C.byname["pi"]] = F.pi
+        return all(_eval_formula(f, symenv, F) for f in formulas) and not _eval_formula(concl, symenv, F)
+    except Exception:
+        return False
+
+
 def _plain_syms(v):
     C = alg.ctx()
     out = set()
